@@ -485,6 +485,21 @@ impl DtlsInner {
             match DtlsRecord::decode(&mut data) {
                 Ok(None) => break,
                 Ok(Some(record)) => {
+                    // Epoch 0 is the unprotected epoch. ApplicationData never travels in it,
+                    // and once the session keys exist alerts must be protected as well;
+                    // such records are forgeable by anyone and are dropped.
+                    if record.epoch == 0
+                        && (record.content_type == ContentType::ApplicationData
+                            || (record.content_type == ContentType::Alert
+                                && ctx.session_keys.is_some()))
+                    {
+                        debug!(
+                            "Dropping unprotected {:?} record (epoch 0)",
+                            record.content_type
+                        );
+                        continue;
+                    }
+                    ctx.record_epoch = record.epoch;
                     let payload = match self.try_decrypt_record(&record, ctx, is_client) {
                         Ok(p) => p,
                         Err(e) => {
@@ -643,6 +658,23 @@ impl DtlsInner {
                 Ok(Some(msg)) => {
                     let consumed = msg_buf.len() - body.len();
                     let raw_msg = msg_buf.slice(0..consumed);
+
+                    // Once the session keys exist the only handshake message still
+                    // expected from the peer is Finished, which is always protected
+                    // (epoch >= 1). A *new* handshake message in an unprotected record is
+                    // therefore forged or stale and must not advance the handshake.
+                    // Retransmissions of earlier flights (message_seq below the expected
+                    // one) keep their existing handling.
+                    if ctx.record_epoch == 0
+                        && ctx.session_keys.is_some()
+                        && msg.message_seq >= ctx.recv_message_seq
+                    {
+                        debug!(
+                            "Ignoring unprotected handshake message {:?} (seq {}) after key negotiation",
+                            msg.msg_type, msg.message_seq
+                        );
+                        continue;
+                    }
 
                     if msg.message_seq < ctx.recv_message_seq {
                         // If we just processed a HelloVerifyRequest, the server may
@@ -2175,6 +2207,8 @@ struct HandshakeContext {
     epoch: u16,
     /// Inbound DTLS record epoch (read epoch); advanced on peer ChangeCipherSpec only.
     read_epoch: u16,
+    /// Epoch of the record currently being processed.
+    record_epoch: u16,
     message_seq: u16,
     recv_message_seq: u16,
     /// Set after processing a HelloVerifyRequest so that the next server
@@ -2211,6 +2245,7 @@ impl HandshakeContext {
             sequence_number: 0,
             epoch: 0,
             read_epoch: 0,
+            record_epoch: 0,
             message_seq: 0,
             recv_message_seq: 0,
             post_hvr: false,
